@@ -38,7 +38,15 @@ RULE = ("(a) every recipient string over {u,a,A,@,%%,.} up to length %s under th
         "versa at the first/middle/last/random position, random mixes in any proportion), short / medium / long / mixed address lengths, records ending exactly at, one short of and "
         "one past a multiple of the buffer size, records longer than a buffer, long senders (info/<id> buffer), serial-numbered recipients, before and after a HUP; the bytes of the real "
         "info/ local/ remote/<id> files are judged by specTodo (each recipient exactly once, in input order, in the channel the documents prescribe). A daemon that dies (sanitizer "
-        "report) ends its scenario, is reported as a harness error, and the remaining scenarios still run")
+        "report) ends its scenario, is reported as a harness error, and the remaining scenarios still run; "
+        "(l) failing-re-read leg (seeded, own stream): nscen/16 real-daemon scenarios, each a sweep of pairs (J k; M) for k = 0, 1, 2, ... up to the last call of reread(): fresh control "
+        "files (a pool domain newly listed in locals, a new virtualdomains entry, now and then padded beyond one or two 64-byte reads) are written, SIGHUP delivered in select(), and the "
+        "k-th call of reread()/regetcontrols()/control_readfile() FAILS in the gate compiled around the #included sources (chdir, open_read: EACCES; read: EIO; close: EIO after closing; "
+        "sleep before a retry skipped); the next message probes every pool domain: when the error struck the re-read BOTH old tables must still be in force, else both new ones; the "
+        "failed call (name, file, read index) is compared with the model's call sequence rereadCall; every message of every S scenario is additionally judged by judgeOneInstant "
+        "(theorem C10_one_instant_spec: locals AND virtualdomains of ONE control directory among start-up's and those on disk at the served HUPs); every third pair is followed by an "
+        "undisturbed HUP; (m) failing-start-up leg (seeded, own stream): nscen/32 configurations, each started with its k-th gated call failing for k = 0, 1, 2, ... up to main()'s "
+        "chdir(\"queue\") (Z lines): started iff startIO / specStartIO say so, call sequence compared with startCall")
 
 FIXED_G = "G 610a 752e610a 610a412e750a 610a752e610a750a 7540753a740a753a760a2e753a770a2e612e753a0a7540752e753a0a"
 ALPHA = b"ua@%.AbB:"
@@ -121,13 +129,14 @@ run_standard("C10", "Nq.Props.C10", "drv_c10", "harness/c10_route.c", "qmail-sen
              ["control.o", "constmap.o", "auto_qmail.o"],
              "6 1500 320", "8 100000 8000",
              {"quick": RULE % (6, 1500, 320), "thorough": RULE % (8, 100000, 8000)},
-             "Nq.Rewrite (cmInit/CM.lookup, getcontrols/reget, rewriteWith, senderadd, commWrite, todoDo, accept/acceptAll over edit|hup|top|msg events, SIGHUP during the re-read included) vs control.c, "
+             "Nq.Rewrite (cmInit/CM.lookup, getcontrols/reget, rewriteWith, senderadd, commWrite, todoDo, accept/acceptAll over edit|hup|top|msg events, SIGHUP during the re-read included; Nq.RewriteIO: readfileIO/readlineIO, getcontrolsIO/startIO, regetIO, "
+             "acceptF/acceptFAll with topIO, rereadCall/startCall call sequences, rchrC) vs control.c, "
              "constmap.c, qmail-send.c getcontrols/regetcontrols/rewrite/senderadd/comm_write/del_start/todo_do/sighup/main loop",
              mutate=mutate,
              assumptions=[
                  "control files and envelope addresses contain no NUL byte (qmail-queue cannot produce one inside an address; the model is exact with NULs, the documented-rule oracle is applied to NUL-free files only)",
                  "control files in which a virtualdomains key is listed twice are outside the property's domain: they are compared with the model (later entry wins) but not judged by the routing oracle (repeated keys in locals/percenthack are judged: membership needs no hypothesis)",
-                 "I/O errors while reading control files and out-of-memory returns are not modelled",
+                 "I/O errors while reading control files are modelled (Nq.RewriteIO) and injected at every chdir/open_read/read/close of start-up and of the re-read, one failing call per run (the theorems cover any combination); out-of-memory returns (stralloc/constmap_init returning 0) are modelled and covered by the theorems but NOT injected; the seven controls other than me/envnoathost/locals/percenthack/virtualdomains do not exist in the harness's directory (their open_read is failed, their reads cannot be); a regular file is read in full 64-byte reads (nreadsFile/nreadsLine)",
                  "percent hack repeated: the documents are read as a rule on the (local part, domain) pair; when an extracted fqdn itself contains '@' the string-level reading would differ (counted as R_pct_readings_differ, theorem C10_pct_string)",
                  "H3: qmail-send's main() runs as a real child process with spawn concurrency 0 (no deliveries; legs e/g/h) or 10 with the harness answering every delivery with success (leg i); the harness plays qmail-clean; in H steps a SIGHUP is sent only while the daemon is blocked in select() and the step ends when it is seen blocked in select() again, i.e. the observed events are hup then loop top; in I steps the second SIGHUP arrives while the daemon is inside reread() (held at a chosen call by a pass-through gate compiled around control.c/qmail-send.c: chdir, open_read, read, close keep their arguments and results), and because the stock loop only looks at the flag at its top and select() does not return for a signal that arrived before it (the known select race, theorem C10_hup_race), the harness pulls the trigger once with an empty todo/ before the next message so that the loop has passed its top; the control files of an I step are replaced by rename, so the overlapped re-read sees each file as it was when it opened it",
                  "a message todo_do refuses is recognised by the daemon going back to sleep in select() without having asked qmail-clean to remove todo/<id> (process state and syscall read from /proc)",
